@@ -26,7 +26,7 @@ package service
 // Only the keep-alive reader and the connection set-up may arm the socket's read deadline: every function that calls
 // SetReadDeadline must be under contract (a new caller without one is a binding failure of C19).
 //@ property C19 callers net.Conn.SetReadDeadline, netReader.SetReadDeadline
-//@ property C17 roots (*service).writeMessage, (*stat).increment, (*buffer).WriteTo, (*buffer).ReadPeek, (*buffer).ReadCommit, (*buffer).ReadFrom, (*service).processor
+//@ property C17 roots (*service).writeMessage, (*stat).increment, (*buffer).WriteTo, (*buffer).ReadPeek, (*buffer).ReadCommit, (*buffer).ReadFrom, (*service).processor, (*service).sender
 //@ property C17 callers (*buffer).Write, (*buffer).WriteWait, (*buffer).WriteCommit
 //@ property C15 roots (*buffer).Close, (*buffer).Read, (*buffer).ReadPeek, (*buffer).ReadWait, (*buffer).ReadCommit, (*buffer).Write, (*buffer).WriteWait, (*buffer).WriteCommit, (*buffer).waitForWriteSpace, (*buffer).ReadFrom, (*buffer).WriteTo
 //@ property C14 roots (*sequence).get, (*sequence).set, (*buffer).isDone, (*buffer).Len, (*buffer).waitForWriteSpace, (*buffer).WriteWait, (*buffer).WriteCommit, (*buffer).Write, ringCopy, (*buffer).ReadPeek, (*buffer).ReadWait, (*buffer).ReadCommit, (*buffer).Read, (*buffer).Close, (*buffer).ReadFrom, (*buffer).WriteTo, newBuffer, powerOfTwo64, newSequence
@@ -551,7 +551,7 @@ func vspecCovered(x int64, start int64, c int64, size int64) bool {
 //@ define vdefQA(aq)
 //@   is vdefQ(aq) && arr(aq.ackdone) != arr(aq.ring)
 //@ define vdefHdr(msg)
-//@   is msg != nil && ifaceval(msg, *message.header) != nil && len(ifaceval(msg, *message.header).mtypeflags) == 1 && !ifaceval(msg, *message.header).dirty
+//@   is msg != nil && ifaceval(msg, *message.header) != nil && len(ifaceval(msg, *message.header).mtypeflags) == 1 && (!ifaceval(msg, *message.header).dirty || typeis(msg, *message.DisconnectMessage) || typeis(msg, *message.PingreqMessage) || typeis(msg, *message.PingrespMessage))
 
 // processIncoming: one received packet. What it sends back, by packet type (C02, C12, C19, C09):
 //   PUBREL  -> (release + hand-over via processAcked, then) exactly one PUBCOMP with the same id
@@ -563,7 +563,8 @@ func vspecCovered(x int64, start int64, c int64, size int64) bool {
 //@ func (*service).processIncoming
 //@   results err
 //@   flag maypanic-typeassert
-//@   requires vdefProc(p) && vdefHdr(msg) && vdefQs(p) && p.sess.Cmsg != nil && !held(addr(p.sess.mu))
+//@   requires[msg] vdefHdr(msg)
+//@   requires vdefProc(p) && vdefQs(p) && p.sess.Cmsg != nil && !held(addr(p.sess.mu))
 //@   requires p.sess.topics != nil && p.sess.Pub1ack != p.sess.Pub2out && arr(p.sess.Pub1ack.ring) != arr(p.sess.Pub2out.ring) && p.sess.Pub1ack.emap != p.sess.Pub2out.emap
 //@   requires typeis(msg, *message.SubscribeMessage) ==> len(ifaceval(msg, *message.SubscribeMessage).topics) == len(ifaceval(msg, *message.SubscribeMessage).qos) && len(ifaceval(msg, *message.SubscribeMessage).topics) <= 30000
 //@   rely modifies p.out.pseq.cursor, p.out.pseq.gate, p.out.cseq.cursor, p.out.done, p.out.pwait, elems(p.out.buf)
@@ -678,10 +679,26 @@ func vspecCovered(x int64, start int64, c int64, size int64) bool {
 //@   ensures[inv] vdefProc(p)
 //@   modifies modset(Out), modset(TopicStore), modset(SessTopics), heap("GF.nunsub"), heap("GF.unsubarr"), heap("GF.unsuboff"), heap("GF.unsublen"), heap("GF.nlog"), gfield(p, "n11"), gfield(p, "id11")
 
+// sender (C17): the outgoing ring is drained to the connection's own socket and to nothing else, by WriteTo (whose
+// contract hands the writer exactly the next bytes of the stream, in order); it returns only when a write failed or
+// the ring was closed.
+//@ closure (*service).sender$1
+//@   flag bodyhash 0c66ce56b1cd
+//@   trusted
+//@ func (*service).sender
+//@   flag noframe
+//@   requires svc.out != nil && vdefRingB(svc.out) && vdefStream(svc.out) && !held(ifaceval(svc.out.pcond.L, *sync.Mutex)) && !held(ifaceval(svc.out.ccond.L, *sync.Mutex))
+//@   rely modifies svc.out.pseq.cursor, svc.out.pseq.gate, svc.out.done, svc.out.pwait, elems(svc.out.buf)
+//@   rely ensures svc.out.pseq.cursor >= old(svc.out.pseq.cursor) && svc.out.pseq.cursor <= svc.out.pseq.gate+svc.out.size && svc.out.pseq.gate >= old(svc.out.pseq.gate) && svc.out.pseq.gate <= svc.out.cseq.cursor && (old(svc.out.done) == 1 ==> svc.out.done == 1)
+//@   rely ensures vdefStream(svc.out)
+//@   atcall (*buffer).WriteTo requires[C17:to-the-connection] ref(w) == ref(svc.conn) && bf == svc.out
+//@   loop 1 invariant svc.out != nil && vdefRing(svc.out) && vdefStream(svc.out) && heldsame() && svc.out == old(svc.out)
+
 // processor (the per-connection packet loop; C17, C02, C05): a thin ordering contract. The preconditions of its
-// callees are ASSUMED here (flag assumepre: peekMessage's contract does not yet say that the decoded message is
-// well-formed, and the handlers' frames are too coarse to carry the incoming ring's state across a packet), so
-// what is proved is only the order of events in one iteration: the bytes of a packet stay reserved in the incoming
+// callees are ASSUMED here (flag assumepre: the handlers' frames are too coarse to carry the state of the incoming
+// ring and of the connection across a packet) - except that the message handed to processIncoming is well-formed,
+// which is proved from peekMessage's contract (flag provepre msg). Otherwise what is proved is the order of events in
+// one iteration: the bytes of a packet stay reserved in the incoming
 // ring (uncommitted) while the packet is processed - the decoded message and everything forwarded from it point into
 // them - and exactly the peeked packet is committed afterwards, once per processed packet.
 // Ghost: nproc / ncommit count processIncoming / ReadCommit calls of this goroutine.
@@ -696,6 +713,7 @@ func vspecCovered(x int64, start int64, c int64, size int64) bool {
 //@ func (*service).processor
 //@   flag noframe
 //@   flag assumepre
+//@   flag provepre msg
 //@   requires p.in != nil
 //@   loop 1 invariant p.in != nil
 //@   atcall (*service).processIncoming requires[C17:packet-still-reserved] gfield(0, "nproc")-old(gfield(0, "nproc")) == gfield(0, "ncommit")-old(gfield(0, "ncommit"))
@@ -934,6 +952,7 @@ func vspecCovered(x int64, start int64, c int64, size int64) bool {
 //@   rely ensures vdefStream(svc.in)
 //@   loop 1 invariant svc.in != nil && vdefRing(svc.in) && vdefStream(svc.in) && heldsame() && svc.in.cseq.cursor == old(svc.in.cseq.cursor) && gfield(svc.in, "rwfail") >= old(gfield(svc.in, "rwfail"))
 //@   ensures[C05:decoded] err == nil ==> msg != nil && 0 <= n
+//@   ensures[C02:well-formed] err == nil ==> vdefHdr(msg)
 //@   modifies heap("F.service.buffer.tmp"), allelems(byte), heap("GF.clock"), heap("GF.lockedAt"), heap("GF.readAt"), heap("GF.doneAt"), heap("GF.doneSeen"), heap("GF.rwfail"), heap("GF.decarr"), heap("GF.decoff"), heap("GF.declen")
 
 // Server.Publish (in-process publisher): the same fan-out as onPublish (C01).
